@@ -73,9 +73,12 @@ def run(ctx):
             line=eps.node.lineno,
         )
     de = index.func("cdd.docstring.emit.docstring")
+    from ..core import RefGraph as _RG
+    from ..region import Region as _Region
+
     heads = [
         n
-        for n in iter_own(de.node)
+        for _g, n in _Region(index, _RG(index), de, allow_passed=True).nodes()
         if isinstance(n, ast.Call) and norm(n.func) == "getattr" and len(n.args) == 2 and norm(n.args[0]) in ("ARG_TOKENS", "RETURN_TOKENS")
     ]
     ok = {norm(h.args[0]) for h in heads} == {"ARG_TOKENS", "RETURN_TOKENS"}
